@@ -12,8 +12,8 @@ PROPS = "props/C21.v"
 RUNNER = ("SAV.sql.TruncRun", "run_case")
 STATIC_MODULES = ["SAV.sql.TruncRun"]
 RULE = (
-    "op0 (DDL): 9 dialect configurations (default/sqlite/postgresql/mysql/oracle/mssql as translated + "
-    "max_identifier_length overrides) x 5 constraint kinds x 6 ways a name arises (convention, "
+    "op0 (DDL): 10 dialect configurations (default/sqlite/postgresql/mysql/oracle/mssql as translated + "
+    "max_identifier_length overrides 8/12/30 and 5) x 5 constraint kinds x 6 ways a name arises (convention, "
     "convention with %(constraint_name)s, conv(), plain, _NONE_NAME, none) x final lengths on both "
     "sides of every limit and random ones in 0..300 (thorough: every length 0..300); the real CREATE "
     "TABLE / CREATE INDEX text is parsed. op1: sequences of SQLCompiler._truncated_identifier calls "
@@ -787,9 +787,6 @@ def nontrivial(c):
 # ------------------------------------------------------------------------------------------------
 # implementation side
 # ------------------------------------------------------------------------------------------------
-_DIALECT_CACHE = {}
-
-
 def _dialect(did, **kw):
     from sqlalchemy.dialects import mssql, mysql, oracle, postgresql, sqlite
     from sqlalchemy.engine import default
@@ -807,14 +804,6 @@ def impl_facts():
     return out
 
 
-def _unquote(tok, d):
-    q1, q2 = d.identifier_preparer.initial_quote, d.identifier_preparer.final_quote
-    if tok.startswith(q1) and tok.endswith(q2) and len(tok) >= 2:
-        inner = tok[len(q1):-len(q2)]
-        return inner.replace(q2 * 2, q2)
-    return tok
-
-
 def _ident_after(sql, marker, d):
     """the (possibly quoted) identifier that follows `marker` in sql"""
     i = sql.index(marker) + len(marker)
@@ -830,7 +819,7 @@ def _ident_after(sql, marker, d):
 
 def _impl_ddl(cin, did, override):
     from sqlalchemy import CheckConstraint, Column, ForeignKeyConstraint, Index, Integer, MetaData
-    from sqlalchemy import PrimaryKeyConstraint, Table, UniqueConstraint, exc
+    from sqlalchemy import PrimaryKeyConstraint, Table, UniqueConstraint
     from sqlalchemy.schema import CreateIndex, CreateTable, conv
     from sqlalchemy.sql.base import _NONE_NAME
 
@@ -892,8 +881,6 @@ def _impl_ddl(cin, did, override):
 
 
 def impl(c):
-    from sqlalchemy import exc
-
     cin = c["in"]
     if cin[0] == 0:
         return _run_ddl(c)
